@@ -508,12 +508,42 @@ def continuation_guard(ctx, props, table):
         first_bad = None
         n_reads = 0
         dom = m.dom(h)
+        # nodes reachable from the entry without passing the non-null edge of a test of srv->Obj
+        def guard_edge(node, lab):
+            if node.kind != 'br':
+                return False
+            x = strip(node.x)
+            if x.k == 'bin' and x.op in ('==', '!='):
+                a, b = x.kids
+                for (l, r) in ((a, b), (b, a)):
+                    ls = strip(l)
+                    if ls.k == 'mem' and ls.field == ('CO_SDO', 'Obj') and const_eval(r) == 0:
+                        return lab == (x.op == '!=')
+            return False
+        unguarded = set()
+        st_ = [g.entry.id]
+        while st_:
+            v = st_.pop()
+            if v in unguarded:
+                continue
+            unguarded.add(v)
+            for (t, lab) in g.nodes[v].succ:
+                if guard_edge(g.nodes[v], lab):
+                    continue
+                if looks_up is not None and v == looks_up:
+                    continue
+                st_.append(t)
         for nid in g.rpo():
             node = g.nodes[nid]
             if node.x is None:
                 continue
-            touches = [n for n in walk(node.x) if n.k == 'mem' and n.field in TRANSFER_FIELDS]
-            # passing srv->Obj to the object layer counts as use of transfer state
+            plain_lhs = set()
+            for n in walk(node.x):
+                if n.k == 'bin' and n.op == '=':
+                    l = strip(n.kids[0])
+                    if l.k == 'mem':
+                        plain_lhs.add(id(l))
+            touches = [n for n in walk(node.x) if n.k == 'mem' and n.field in TRANSFER_FIELDS and id(n) not in plain_lhs]
             for c in walk(node.x):
                 if c.k == 'call' and callee_name(c) not in ('COSdoAbort', 'COSdoAbortReq', None):
                     for a in c.kids[1:]:
@@ -523,19 +553,7 @@ def continuation_guard(ctx, props, table):
             if not touches:
                 continue
             n_reads += 1
-            guarded = False
-            for f in (facts.get(nid) or ()):
-                x = strip(f.x)
-                if x.k == 'bin' and x.op in ('==', '!='):
-                    a, b = x.kids
-                    for (l, r) in ((a, b), (b, a)):
-                        ls = strip(l)
-                        if ls.k == 'mem' and ls.field == ('CO_SDO', 'Obj') and const_eval(r) == 0:
-                            if f.pol == (x.op == '!='):
-                                guarded = True
-            if looks_up is not None and looks_up in dom.get(nid, ()):
-                guarded = True
-            if not guarded and first_bad is None:
+            if nid in unguarded and first_bad is None:
                 first_bad = node
         site = '%s (%d statements touching transfer state)' % (h, n_reads)
         if first_bad is None:
